@@ -132,9 +132,22 @@ pub fn define(
                 }
             };
 
-            // FIXME: Multiplication can overflow
-            let size = addr_size
-                .map(|s| s * addr_unit);
+            let size = match addr_size
+            {
+                None => None,
+                Some(s) => match s.checked_mul(addr_unit)
+                {
+                    Some(size) => Some(size),
+                    None =>
+                    {
+                        report.error_span(
+                            "value is out of supported range",
+                            node.header_span);
+
+                        return Err(());
+                    }
+                }
+            };
             
             let output_offset = match &node.output_offset
             {
@@ -147,6 +160,23 @@ pub fn define(
                         expr)?
                     .expect_usize(report, expr.span())?),
             };
+
+            // The output of a bank must lie within the supported output size
+            if let (Some(size), Some(outp)) = (size, output_offset)
+            {
+                let in_range = outp
+                    .checked_add(size)
+                    .map_or(false, |end| (end as u64) <= util::OUTPUT_MAX_BITS);
+
+                if !in_range
+                {
+                    report.error_span(
+                        "value is out of supported range",
+                        node.header_span);
+
+                    return Err(());
+                }
+            }
 
             let fill = node.fill;
 
